@@ -141,11 +141,24 @@ theorem findByNameAll_ok {n : String} {y : Symbol} : ∀ {ts : List Table}, Tabl
 
 /-! ### the invariant and the step relation -/
 
+/-- a compiled function in the constant pool: its locals fit the frame, its stream decodes -/
+def FnOK (f : CFn) : Prop := f.numLocals ≤ 256 ∧ Walk f.insts 0 f.insts.size
+def ConstsOK (cs : Array Const) : Prop := ∀ c ∈ cs.toList, ∀ f, c = .fn f → FnOK f
+
+theorem ConstsOK.push {cs : Array Const} (h : ConstsOK cs) {c : Const} (hc : ∀ f, c = .fn f → FnOK f) :
+    ConstsOK (cs.push c) := by
+  intro c' hc' f hf
+  simp at hc'
+  rcases hc' with hc' | hc'
+  · exact h c' (by simpa using hc') f hf
+  · subst hc'; exact hc f hf
+
 structure Inv (s : CState) : Prop where
   ne : s.tables ≠ []
   tabs : TablesOK s.tables
   walk : Walk s.insts 0 s.insts.size
   loops : ∀ l ∈ s.loops, ∀ p, (p ∈ l.breaks ∨ p ∈ l.continues) → Bd s.insts p
+  consts : ConstsOK s.constants
 
 structure Rel (s s' : CState) : Prop where
   tlen : s'.tables.length = s.tables.length
@@ -189,8 +202,8 @@ theorem Rel.of_same {s s' : CState} (h1 : s'.tables.length = s.tables.length) (h
   intro l l' h h' p; rw [h3, h] at h'; injection h' with h'; subst h'; exact ⟨.inl, .inl⟩
 
 theorem Inv.of_tables {s s' : CState} (h : Inv s) (h1 : s'.tables ≠ []) (h2 : TablesOK s'.tables)
-    (h3 : s'.insts = s.insts) (h4 : s'.loops = s.loops) : Inv s' :=
-  ⟨h1, h2, by rw [h3]; exact h.walk, by rw [h3, h4]; exact h.loops⟩
+    (h3 : s'.insts = s.insts) (h4 : s'.loops = s.loops) (h5 : s'.constants = s.constants := by rfl) : Inv s' :=
+  ⟨h1, h2, by rw [h3]; exact h.walk, by rw [h3, h4]; exact h.loops, by rw [h5]; exact h.consts⟩
 
 /-- `GoodP P m`: from a state satisfying the invariant `m` does not panic; on normal termination
     the invariant holds again, the states are related, and the result satisfies `P`. -/
@@ -276,10 +289,11 @@ theorem good_updateMaxDefs (n : Nat) : Good (modTables (updateMaxDefs n)) :=
   good_modTables (updateMaxDefs_length n) (fun _ h => updateMaxDefs_ok n h)
 
 theorem good_modify_misc {f : CState → CState} (h1 : ∀ s, (f s).tables = s.tables) (h2 : ∀ s, (f s).insts = s.insts)
-    (h3 : ∀ s, (f s).loops = s.loops) : Good (modify f : CM Unit) := by
+    (h3 : ∀ s, (f s).loops = s.loops) (h4 : ∀ s, (f s).constants = s.constants := by intro _; rfl) :
+    Good (modify f : CM Unit) := by
   intro s hs
   apply Sat.modify
-  exact ⟨hs.of_tables (by rw [h1]; exact hs.ne) (by rw [h1]; exact hs.tabs) (h2 s) (h3 s),
+  exact ⟨hs.of_tables (by rw [h1]; exact hs.ne) (by rw [h1]; exact hs.tabs) (h2 s) (h3 s) (h4 s),
     Rel.of_same (by rw [h1]) (h2 s) (h3 s), trivial⟩
 
 /-- `updateSym` with an update that does not touch scope, constant flag or literal -/
@@ -302,9 +316,10 @@ theorem good_addConstant (k : CVal) : Good (addConstant k) := by
   · exact Sat.pure ⟨hs, Rel.refl s, trivial⟩
   · apply Sat.bind
     apply Sat.set
-    exact Sat.pure ⟨hs.of_tables hs.ne hs.tabs rfl rfl, Rel.of_same rfl rfl rfl, trivial⟩
+    exact Sat.pure ⟨⟨hs.ne, hs.tabs, hs.walk, hs.loops, hs.consts.push (fun f hf => by cases hf)⟩,
+      Rel.of_same rfl rfl rfl, trivial⟩
 
-theorem good_addFnConstant (f : CFn) : Good (addFnConstant f) := by
+theorem good_addFnConstant (f : CFn) (hf : FnOK f) : Good (addFnConstant f) := by
   intro s hs
   unfold addFnConstant
   apply Sat.bind
@@ -313,7 +328,8 @@ theorem good_addFnConstant (f : CFn) : Good (addFnConstant f) := by
   · exact Sat.pure ⟨hs, Rel.refl s, trivial⟩
   · apply Sat.bind
     apply Sat.set
-    exact Sat.pure ⟨hs.of_tables hs.ne hs.tabs rfl rfl, Rel.of_same rfl rfl rfl, trivial⟩
+    exact Sat.pure ⟨⟨hs.ne, hs.tabs, hs.walk, hs.loops, hs.consts.push (fun g hg => by injection hg with hg; subst hg; exact hf)⟩,
+      Rel.of_same rfl rfl rfl, trivial⟩
 
 theorem goodP_resolve (name : String) : GoodP (fun r => ∀ y, r = some y → SymOK y) (resolve name) := by
   intro s hs
@@ -379,7 +395,7 @@ theorem sat_emit {pos : Pos} {op : Nat} {args : List Int} {s : CState} {Q : Nat 
     apply Sat.pure
     have hpre := pre_append s.insts (UInt8.ofNat op :: rest)
     apply h
-    · exact ⟨hs.ne, hs.tabs, Walk.append_inst hs.walk hop hl, fun l hl p hp => (hs.loops l hl p hp).pre hpre⟩
+    · exact ⟨hs.ne, hs.tabs, Walk.append_inst hs.walk hop hl, fun l hl p hp => (hs.loops l hl p hp).pre hpre, hs.consts⟩
     · exact Rel.of_pre rfl hpre rfl
     · exact Bd.append_inst hs.walk
     · rfl
@@ -466,7 +482,7 @@ theorem st_changeOperand {p : Nat} {args : List Int} {s0 s : CState} {ps : List 
       fun j hj => Walk.patch_inst hj hbd.1 hop hl
     have hbd' : ∀ q, Bd s.insts q → Bd (patch s.insts p (op :: rest)) q :=
       fun q hq => ⟨hwalk q hq.1, by rw [size_patch]; exact hq.2⟩
-    refine ⟨⟨hst.inv.ne, hst.inv.tabs, ?_, fun l hl q hq => hbd' q (hst.inv.loops l hl q hq)⟩, ?_, ?_⟩
+    refine ⟨⟨hst.inv.ne, hst.inv.tabs, ?_, fun l hl q hq => hbd' q (hst.inv.loops l hl q hq), hst.inv.consts⟩, ?_, ?_⟩
     · have := hwalk _ hst.inv.walk
       simpa [size_patch] using this
     · refine ⟨hst.rel.tlen, Pre.patch hst.rel.pre hge, hst.rel.llen, hst.rel.ltail, hst.rel.lhead⟩
